@@ -91,7 +91,7 @@ def parse_vspec(text, origin="<vspec>"):
                 cur_fn.props = arg.split()
             elif d in ("@attr", "@ret"):
                 b = Block(d[1:], arg, ln); cur_fn.blocks.append(b)
-            elif d in ("@spec", "@loop", "@at", "@closure", "@replace"):
+            elif d in ("@spec", "@loop", "@at", "@closure", "@replace", "@replace-all"):
                 cur_block = Block(d[1:], arg, ln); cur_fn.blocks.append(cur_block)
             elif d == "@break-value-loops":
                 cur_fn.blocks.append(Block("bvl", "", ln))
@@ -288,6 +288,11 @@ def annotate_file(src, fspec, relfile):
                 if len(ms) != 1:
                     raise AnchorLost("%s: `%s`: rewrite /%s/ matched %d times" % (relfile, fs.path, rx.pattern, len(ms)))
                 repls.append((item_s + ms[0].start(), item_s + ms[0].end(), ms[0].expand("\n".join(lines))))
+            elif b.kind == "replace-all":
+                rx = re.compile(b.arg.strip()[1:-1])
+                body = src[item_s:item_e]
+                for m0 in rx.finditer(body):
+                    repls.append((item_s + m0.start(), item_s + m0.end(), m0.expand("\n".join(lines))))
             elif b.kind == "bvl":
                 # R2
                 done = 0
